@@ -74,6 +74,7 @@ type HOutcome struct {
 	Funcs           []string `json:"rare_funcs,omitempty"`             // library functions the first failing call entered (filled on failure)
 	HistFuncs       []string `json:"history_funcs,omitempty"`          // cache-full handling functions entered anywhere in the history up to the failing step
 	PrefilterMisses bool     `json:"prefilter_misses_match,omitempty"` // the engine's prefilter does not report the start of a reference match on the failing call's haystack
+	AccelOverDead   bool     `json:"accel_over_dead,omitempty"`        // some lazy-DFA cache of the failing value holds an accelerated state with a dead transition
 }
 
 func (sc *HScenario) hays() ([][]byte, []string) {
@@ -305,6 +306,41 @@ func prefilterMissesMatch(pattern string, k Knobs, h []byte) bool {
 	return false
 }
 
+// valueAccelOverDead reports whether any lazy-DFA cache the value can hand out (slot, state
+// pool, the reverse searchers' cache pools) holds an accelerated state that has a dead
+// transition (listed finding KF-C13-accel-dead-transitions).
+func valueAccelOverDead(re *coregex.Regex) bool {
+	e := re.VerifEngine()
+	hit := false
+	add := func(st *meta.SearchState) {
+		for _, c := range st.VerifInfo().Caches {
+			if c.AccelOverDead > 0 {
+				hit = true
+			}
+		}
+	}
+	if st := e.VerifLocalState(); st != nil {
+		add(st)
+	}
+	if p, ok := e.VerifStatePool().(*simrt.Pool); ok {
+		for _, it := range p.Items() {
+			if st, ok := it.(*meta.SearchState); ok {
+				add(st)
+			}
+		}
+	}
+	for _, pp := range e.VerifCachePools() {
+		if p, ok := pp.(*simrt.Pool); ok {
+			for _, it := range p.Items() {
+				if c, ok := it.(interface{ VerifAccelOverDead() int }); ok && c.VerifAccelOverDead() > 0 {
+					hit = true
+				}
+			}
+		}
+	}
+	return hit
+}
+
 // abstractState summarises the recycled state that will serve the next call on re.
 func abstractState(re *coregex.Regex, strategy string, longest bool) (uint64, int, int) {
 	e := re.VerifEngine()
@@ -479,6 +515,13 @@ func runHistoryT(sc *HScenario, tr *traceReq) *HOutcome {
 	fail := func(v HViolation) {
 		if len(out.Violations) < 8 {
 			out.Violations = append(out.Violations, v)
+		}
+		if v.Kind != "invariant" && !out.AccelOverDead {
+			for _, lv := range vals {
+				if valueAccelOverDead(lv.re) {
+					out.AccelOverDead = true
+				}
+			}
 		}
 		if out.Class == "" || (out.Class == "invariant" && v.Kind != "invariant") {
 			out.Class = v.Kind
